@@ -180,6 +180,11 @@ type World struct {
 	FromResolver bool // a name was provided by a resolver
 	LeftUnset    bool // an operator's left side was unset or empty
 	Shadowed     bool // a name found in one layer also exists in a later-consulted layer
+	// a plain reference whose NAME is computed from other references and contains the separator was evaluated
+	// (such a name is split when it is read, all other names when the string is merged)
+	ComputedDotted bool
+	// a name led through a setting that is an expression itself (the model does not look into its value)
+	ThroughExpr bool
 	Absorbed     bool           // a re-entry was absorbed: a resolver knew the active name, or an operator swallowed the failure
 	Uses         map[string]int // how often each name was dereferenced during the last evaluation
 }
@@ -220,9 +225,48 @@ func (w *World) Reset() {
 	w.SawCycle, w.FromEnv, w.FromResolver, w.LeftUnset, w.Shadowed = false, false, false, false, false
 	w.Uses = nil
 	w.Absorbed = false
+	w.ComputedDotted = false
+	w.ThroughExpr = false
 }
 
 func lookupIn(tree *Node, name string) (*Node, bool) {
+	v, ok, _ := lookupInX(tree, name)
+	return v, ok
+}
+
+// lookupInX also reports whether the walk met an expression before the last segment: the library evaluates it
+// and continues in its value (or fails with the expression's failure), which the model does not follow.
+func lookupInX(tree *Node, name string) (*Node, bool, bool) {
+	v, ok := lookupIn0(tree, name)
+	return v, ok, !ok && throughExpr(tree, name)
+}
+
+func throughExpr(tree *Node, name string) bool {
+	cur := tree
+	for _, seg := range strings.Split(name, ".") {
+		switch cur.K {
+		case "obj":
+			v := cur.Get(seg)
+			if v == nil {
+				return false
+			}
+			cur = v
+		case "list":
+			i, err := strconv.Atoi(seg)
+			if err != nil || i < 0 || i >= len(cur.Vals) {
+				return false
+			}
+			cur = cur.Vals[i]
+		case "expr":
+			return true
+		default:
+			return false
+		}
+	}
+	return false
+}
+
+func lookupIn0(tree *Node, name string) (*Node, bool) {
 	cur := tree
 	for _, seg := range strings.Split(name, ".") {
 		switch cur.K {
@@ -263,7 +307,11 @@ func (w *World) lookup(name string) (*Node, *Node, bool) {
 	if w.home != nil {
 		first = w.home
 	}
-	if v, ok := lookupIn(first, name); ok {
+	v, ok, through := lookupInX(first, name)
+	if through {
+		w.ThroughExpr = true
+	}
+	if ok {
 		for _, e := range w.Envs {
 			if e != first {
 				if _, ok := lookupIn(e, name); ok {
@@ -280,7 +328,11 @@ func (w *World) lookup(name string) (*Node, *Node, bool) {
 		return v, first, true
 	}
 	for i := len(w.Envs) - 1; i >= 0; i-- {
-		if v, ok := lookupIn(w.Envs[i], name); ok {
+		v, ok, through := lookupInX(w.Envs[i], name)
+		if through {
+			w.ThroughExpr = true
+		}
+		if ok {
 			w.FromEnv = true
 			for j := 0; j < i; j++ {
 				if _, ok := lookupIn(w.Envs[j], name); ok {
@@ -518,6 +570,9 @@ func (w *World) evalVar(p Part) (string, error) {
 	case "":
 		if nerr != nil {
 			return "", nerr
+		}
+		if !(len(p.Name) == 1 && !p.Name[0].IsVar) && strings.Contains(name, ".") {
+			w.ComputedDotted = true
 		}
 		return w.refEval(name)
 	case ":":
@@ -870,6 +925,23 @@ func (g *GCfg) GenEnv(t *rapid.T) *Node {
 		e.Put(k, mid)
 	}
 	return e
+}
+
+// GenEnvLayer draws settings that are merged into an Env config later on.
+func (g *GCfg) GenEnvLayer(t *rapid.T) *Node {
+	l := &Node{K: "obj"}
+	for _, k := range []string{"e1", "both", "a", "zz"} {
+		if rapid.IntRange(0, 2).Draw(t, "envredef") == 0 {
+			if g.EnvExprs && rapid.IntRange(0, 2).Draw(t, "envexpr") == 0 {
+				eg := *g
+				eg.Names = []string{"a", "e1", "e2", "both", "zz", "a", "e1", "b", "r1"}
+				l.Put(k, eg.GenLeaf(t, true))
+				continue
+			}
+			l.Put(k, g.GenLeaf(t, false))
+		}
+	}
+	return l
 }
 
 var resVals = []string{"rv", "5", "", "p,q", "true", " sp ", "{k: 1}", "-3", "1.5"}
